@@ -203,10 +203,10 @@ def scratch_root():
 	return d
 
 
-def execute(scenario, prop, seed, run, tier, choices=None, root=None):
+def execute(scenario, prop, seed, run, tier, choices=None, root=None, rng_run=None):
 	"""Execute one run. Returns RunResult; never raises Violation."""
 	if choices is None:
-		ch = Chooser(rng=run_rng(seed, prop, run))
+		ch = Chooser(rng=run_rng(seed, prop, run if rng_run is None else rng_run))
 	else:
 		ch = Chooser(replay=choices)
 	ctx = Ctx(prop, seed, run, tier, ch, root or scratch_root())
